@@ -438,3 +438,21 @@ mod tests {
         assert_eq!(editor.text_range(range), expected);
     }
 }
+
+#[cfg(feature = "verif-hooks")]
+impl<B: Buffer> Editor<B> {
+    /// Verification hook: raw buffer, number of valid bytes, cursor (in chars)
+    #[doc(hidden)]
+    pub fn __verif_raw(&self) -> (&[u8], usize, usize) {
+        (self.buffer.as_slice(), self.valid, self.cursor)
+    }
+
+    /// Verification hook: overwrite bytes that are not part of the text
+    #[doc(hidden)]
+    pub fn __verif_poison_dead(&mut self, fill: u8) {
+        let valid = self.valid;
+        if let Some(dead) = self.buffer.as_slice_mut().get_mut(valid..) {
+            dead.fill(fill);
+        }
+    }
+}
